@@ -245,7 +245,7 @@ theorem SenderSame.trans {a b c : Obj} (s : SenderSame a b) (t : SenderSame b c)
   ⟨by rw [t.credit, s.credit], by rw [t.finishSent, s.finishSent], by rw [t.cap, s.cap],
    by rw [t.threshold, s.threshold], by rw [t.fid, s.fid]⟩
 
-def AcksOf (y : Nat) (em : List Msg) : Prop := ∀ m ∈ em, ∃ n, m = .frame (.acknowledge y n)
+abbrev AcksOf (y : Nat) (em : List Msg) : Prop := ∀ m ∈ em, ∃ n, m = .frame (.acknowledge y n)
 
 theorem AcksOf.append {y : Nat} {a b : List Msg} (ha : AcksOf y a) (hb : AcksOf y b) : AcksOf y (a ++ b) := by
   intro m hm
@@ -309,5 +309,141 @@ theorem appRead_coarse (e : EP) (h i n : Nat) (o : Obj) (hh : e.handleObj h = so
     simp only [List.append_nil] at u
     exact ⟨_, _, u, ss1.trans ⟨rfl, rfl, rfl, rfl, rfl⟩, ak1⟩
   | _ => exact ⟨o1, em1, u1, ss1, ak1⟩
+
+end Penguin.Mux
+
+namespace Penguin.Mux
+
+abbrev ResetsOf (x : Nat) (em : List Msg) : Prop := ∀ m ∈ em, m = .frame (.reset x)
+
+theorem closeFlow_slot_none (e : EP) (x : Nat) (inh : Bool) : lookup (closeFlow e x inh).1.flows x = none := by
+  unfold closeFlow
+  cases hl : lookup e.flows x with
+  | none => simpa using hl
+  | some s =>
+    simp only
+    have : (closeLocal { e with flows := erase e.flows x } s x inh false).1.flows = erase e.flows x := by
+      unfold closeLocal
+      cases s with
+      | established i =>
+        simp only
+        cases ho : EP.obj? { e with flows := erase e.flows x } i with
+        | none => rfl
+        | some o => simp only; split <;> simp [EP.enqFrame]
+      | requested req => simp only; rw [openRejected_flows]
+      | bindRequested req => rfl
+    rw [this]; exact lookup_erase_self _ _
+
+theorem LocalUpd.silent {e e' : EP} (i : Nat) (o : Obj) (ho : e.objs[i]? = some o)
+    (h1 : e'.flows = e.flows) (h2 : e'.rng = e.rng) (h3 : e'.opts = e.opts) (h4 : e'.objs = e.objs)
+    (h5 : e'.outq = e.outq) (h6 : e'.droppedq = e.droppedq) : LocalUpd e e' i o [] [] :=
+  ⟨h1, h2, h3, fun _ _ => by rw [h4], by rw [h4]; exact ho, by simp [h5], by simp [h6]⟩
+
+/-- A frame (not a `Connect`) for a flow whose slot is established: either the slot is removed
+    (`Reset`, or a `Push` beyond the window), or the effect is local to the stream object, as listed. -/
+theorem processFrame_est (e : EP) (f : Frame) (ig : Bool) (x i : Nat) (o : Obj)
+    (hs : lookup e.flows x = some (.established i)) (ho : e.objs[i]? = some o) (hid : f.id = x)
+    (hnc : (Msg.frame f).isConnect = false) (hoc : e.outClosed = false) :
+    lookup (processFrame e f ig).1.flows x = none ∨
+    ∃ o' em, LocalUpd e (processFrame e f ig).1 i o' em [] ∧ ResetsOf x em ∧
+      ((∃ n, f = .acknowledge x n ∧ o' = { o.wake with credit := (o.credit + n) % 4294967296 } ∧ em = []) ∨
+       (f = .finish x ∧ o' = { o with senderAlive := false } ∧ em = []) ∨
+       (∃ d, f = .push x d ∧
+          ((o.senderAlive = true ∧ o.rxOpen = true ∧ o.rxq.length < o.cap ∧ o' = { o with rxq := o.rxq ++ [d] } ∧ em = []) ∨
+           (¬ (o.senderAlive = true ∧ o.rxOpen = true) ∧ o' = o))) ∨
+       ((∃ bt port host, f = .bind x bt port host) ∨ (∃ port host d, f = .datagram x port host d)) ∧ o' = o) := by
+  have ho' : e.obj? i = some o := ho
+  cases f with
+  | connect fid rwnd port host => simp [Msg.isConnect] at hnc
+  | acknowledge fid n =>
+    simp only [Frame.id] at hid; subst hid
+    right
+    refine ⟨_, [], ?_, (by intro m hm; cases hm), Or.inl ⟨n, rfl, rfl, rfl⟩⟩
+    simp only [processFrame, hs]
+    exact LocalUpd.modObj e i _ o _ ho rfl
+  | finish fid =>
+    simp only [Frame.id] at hid; subst hid
+    right
+    refine ⟨_, [], ?_, (by intro m hm; cases hm), Or.inr (Or.inl ⟨rfl, rfl, rfl⟩)⟩
+    simp only [processFrame, hs]
+    exact LocalUpd.modObj e i _ o _ ho rfl
+  | reset fid =>
+    simp only [Frame.id] at hid; subst hid
+    left
+    simp only [processFrame]
+    exact closeFlow_slot_none e fid true
+  | push fid d =>
+    simp only [Frame.id] at hid; subst hid
+    by_cases ha : o.senderAlive = true
+    · by_cases hr : o.rxOpen = true
+      · by_cases hroom : o.rxq.length < o.cap
+        · right
+          have hres : (processFrame e (.push fid d) ig).1 = e.modObj i (fun o => { o with rxq := o.rxq ++ [d] }) := by
+            simp [processFrame, hs, ho', ha, hr, hroom]
+          rw [hres]
+          exact ⟨_, [], LocalUpd.modObj e i _ o _ ho rfl, (by intro m hm; cases hm),
+            Or.inr (Or.inr (Or.inl ⟨d, rfl, Or.inl ⟨ha, hr, hroom, rfl, rfl⟩⟩))⟩
+        · left
+          have hres : (processFrame e (.push fid d) ig).1 = (closeFlow e fid false).1 := by
+            simp [processFrame, hs, ho', ha, hr, hroom]
+          rw [hres]
+          exact closeFlow_slot_none e fid false
+      · right
+        have hr' : o.rxOpen = false := by simpa using hr
+        have hres : (processFrame e (.push fid d) ig).1 = e := by
+          simp [processFrame, hs, ho', ha, hr']
+        rw [hres]
+        exact ⟨o, [], LocalUpd.refl e i o ho, (by intro m hm; cases hm),
+          Or.inr (Or.inr (Or.inl ⟨d, rfl, Or.inr ⟨by simp [hr'], rfl⟩⟩))⟩
+    · right
+      have ha' : o.senderAlive = false := by simpa using ha
+      have hres : (processFrame e (.push fid d) ig).1 = e.enqFrame (.reset fid) := by
+        simp [processFrame, hs, ho', ha']
+      rw [hres]
+      exact ⟨o, [.frame (.reset fid)], LocalUpd.enqFrame e _ i o ho hoc, (by intro m hm; simpa using hm),
+        Or.inr (Or.inr (Or.inl ⟨d, rfl, Or.inr ⟨by simp [ha'], rfl⟩⟩))⟩
+  | bind fid bt port host =>
+    simp only [Frame.id] at hid; subst hid
+    right
+    simp only [processFrame]
+    split
+    · exact ⟨o, [.frame (.reset fid)], LocalUpd.enqFrame e _ i o ho hoc, (by intro m hm; simpa using hm),
+        Or.inr (Or.inr (Or.inr ⟨Or.inl ⟨bt, port, host, rfl⟩, rfl⟩))⟩
+    · split
+      · exact ⟨o, [], LocalUpd.refl e i o ho, (by intro m hm; cases hm), Or.inr (Or.inr (Or.inr ⟨Or.inl ⟨bt, port, host, rfl⟩, rfl⟩))⟩
+      · split
+        · exact ⟨o, [.frame (.reset fid)], LocalUpd.enqFrame e _ i o ho hoc, (by intro m hm; simpa using hm),
+            Or.inr (Or.inr (Or.inr ⟨Or.inl ⟨bt, port, host, rfl⟩, rfl⟩))⟩
+        · refine ⟨o, [], ?_, (by intro m hm; cases hm), Or.inr (Or.inr (Or.inr ⟨Or.inl ⟨bt, port, host, rfl⟩, rfl⟩))⟩
+          unfold offerBind
+          split <;> exact LocalUpd.silent i o ho rfl rfl rfl rfl rfl rfl
+  | datagram fid port host d =>
+    simp only [Frame.id] at hid; subst hid
+    right
+    refine ⟨o, [], ?_, (by intro m hm; cases hm), Or.inr (Or.inr (Or.inr ⟨Or.inr ⟨port, host, d, rfl⟩, rfl⟩))⟩
+    simp only [processFrame]
+    repeat' split
+    all_goals first | exact LocalUpd.refl e i o ho | exact LocalUpd.silent i o ho rfl rfl rfl rfl rfl rfl
+
+/-- A frame that is not a `Connect` never gives a slot to a flow that has none. -/
+theorem processFrame_none_stays (e : EP) (f : Frame) (ig : Bool) (x : Nat)
+    (hs : lookup e.flows x = none) (hid : f.id = x) (hnc : (Msg.frame f).isConnect = false) :
+    lookup (processFrame e f ig).1.flows x = none := by
+  cases f with
+  | connect fid rwnd port host => simp [Msg.isConnect] at hnc
+  | acknowledge fid n => simp only [Frame.id] at hid; subst hid; simp [processFrame, hs, EP.enqFrame]
+  | finish fid => simp only [Frame.id] at hid; subst hid; simp [processFrame, hs, EP.enqFrame]
+  | reset fid => simp only [Frame.id] at hid; subst hid; simp only [processFrame]; exact closeFlow_slot_none e fid true
+  | push fid d => simp only [Frame.id] at hid; subst hid; simp [processFrame, hs, EP.enqFrame]
+  | bind fid bt port host =>
+    simp only [Frame.id] at hid; subst hid
+    simp only [processFrame]
+    repeat' split
+    all_goals simp [EP.enqFrame, offerBind_flows, hs]
+  | datagram fid port host d =>
+    simp only [Frame.id] at hid; subst hid
+    simp only [processFrame]
+    repeat' split
+    all_goals simp [hs]
 
 end Penguin.Mux
